@@ -304,3 +304,92 @@ Qed.
 (* tie T: in the current source of Get the `l == 0` test precedes the size test *)
 Lemma source_order : get_order_ok = true.
 Proof. vm_compute. reflexivity. Qed.
+
+(* ---- the code as found agrees with the repaired code except on an absent LAST slot ---- *)
+
+Lemma get_presize_loop_eq k b :
+  get_presize_loop k b =
+  let '(l, n) := uvarint b in
+  let m := int_l_plus_1 l in
+  if (n <? 1)%Z || (Z.of_nat (List.length (skipn (Z.to_nat n) b)) <? m)%Z then GErr else
+  let b := skipn (Z.to_nat n) b in
+  if l =? 0 then
+    match k with O => GNotExist | S k' => get_presize_loop k' b end
+  else
+    if (m <? 0)%Z then GPanic
+    else
+      let x := firstn (Z.to_nat m) b in
+      let b := skipn (Z.to_nat m) b in
+      match k with O => from_data x | S k' => get_presize_loop k' b end.
+Proof. destruct k; reflexivity. Qed.
+
+Lemma encode_cons_nonempty c r bytes : encode (c :: r) = Some bytes -> bytes <> [].
+Proof.
+  cbn [encode]. destruct c as [[e d]|].
+  - destruct (Nat.ltb _ _); [discriminate|]. destruct (encode r); [|discriminate].
+    intros H. injection H as <-. pose proof (put_f_nonempty 10 (N.of_nat (List.length d))) as P.
+    unfold put_uvarint. destruct (put_uvarint_f 10 (N.of_nat (List.length d))); [cbn in P; lia|discriminate].
+  - destruct (encode r); [|discriminate]. intros H. injection H as <-. discriminate.
+Qed.
+
+Lemma get_presize_encode : forall chks bytes k s,
+  forallb sub_wf chks = true ->
+  encode chks = Some bytes ->
+  nth_error chks k = Some s ->
+  (s <> None \/ (S k < List.length chks)%nat) ->
+  get_presize k bytes = expected s.
+Proof.
+  unfold get_presize.
+  induction chks as [|c chks IH]; intros bytes k s Hwf Henc Hnth Hcond.
+  - destruct k; discriminate.
+  - cbn [forallb] in Hwf. apply andb_true_iff in Hwf as [Hc Hwf].
+    pose proof Henc as Henc0. cbn [encode] in Henc. destruct c as [[e d]|].
+    + destruct (Nat.ltb uvarint_buf_len (List.length (put_uvarint (N.of_nat (List.length d))))) eqn:Hlen;
+        [discriminate|].
+      apply Nat.ltb_ge in Hlen. unfold uvarint_buf_len in Hlen.
+      destruct (encode chks) as [tl|] eqn:Etl; [|discriminate].
+      injection Henc as <-.
+      apply sub_wf_some in Hc as (Hd & Hv & Hl).
+      rewrite get_presize_loop_eq.
+      rewrite uvarint_put; [|eapply N.lt_trans; [exact Hl|reflexivity]|lia].
+      set (u := put_uvarint (N.of_nat (List.length d))) in *.
+      assert (Hu : (1 <= List.length u)%nat) by apply put_f_nonempty.
+      replace (Z.of_nat (List.length u) <? 1)%Z with false by (symmetry; apply Z.ltb_ge; lia).
+      rewrite Nat2Z.id. cbv zeta.
+      rewrite skipn_app_exact by reflexivity.
+      rewrite int_l_plus_1_small by exact Hl.
+      replace (Z.of_N (N.of_nat (List.length d)) + 1)%Z with (Z.of_nat (S (List.length d))) by lia.
+      replace (Z.of_nat (List.length (e :: d ++ tl)) <? Z.of_nat (S (List.length d)))%Z with false
+        by (symmetry; apply Z.ltb_ge; cbn [List.length]; rewrite app_length; lia).
+      cbn [orb].
+      replace (N.of_nat (List.length d) =? 0) with false by (symmetry; apply N.eqb_neq; lia).
+      rewrite Nat2Z.id.
+      replace (Z.of_nat (S (List.length d)) <? 0)%Z with false by (symmetry; apply Z.ltb_ge; lia).
+      change (e :: d ++ tl) with ((e :: d) ++ tl).
+      rewrite firstn_app_exact by reflexivity.
+      rewrite skipn_app_exact by reflexivity.
+      destruct k as [|k'].
+      * cbn in Hnth. injection Hnth as <-. cbn [from_data expected]. rewrite Hv. reflexivity.
+      * cbn in Hnth. eapply IH; eauto. destruct Hcond as [H|H]; [left; exact H|right; cbn [List.length] in H; lia].
+    + destruct (encode chks) as [tl|] eqn:Etl; [|discriminate].
+      injection Henc as <-.
+      change (put_uvarint 0 ++ tl) with (0 :: tl).
+      rewrite get_presize_loop_eq.
+      change (uvarint (0 :: tl)) with (0, 1%Z).
+      cbv iota zeta. change (1 <? 1)%Z with false.
+      change (skipn (Z.to_nat 1) (0 :: tl)) with tl.
+      change (int_l_plus_1 0) with 1%Z.
+      (* the size test passes iff something follows *)
+      assert (Htl : tl <> []).
+      { destruct chks as [|c' chks'].
+        - exfalso. destruct k as [|k']; cbn in Hnth.
+          + injection Hnth as <-. destruct Hcond as [H|H]; [congruence|cbn in H; lia].
+          + destruct k'; discriminate.
+        - eapply encode_cons_nonempty. exact Etl. }
+      replace (Z.of_nat (List.length tl) <? 1)%Z with false
+        by (symmetry; apply Z.ltb_ge; destruct tl; [congruence|cbn [List.length]; lia]).
+      cbn [orb]. change (0 =? 0) with true. cbv iota.
+      destruct k as [|k'].
+      * cbn in Hnth. injection Hnth as <-. reflexivity.
+      * cbn in Hnth. eapply IH; eauto. destruct Hcond as [H|H]; [left; exact H|right; cbn [List.length] in H; lia].
+Qed.
